@@ -218,7 +218,9 @@ func (sc *SubCache[EntityT, ExcerptT, CacheT]) Build() <-chan BuildEvent {
 			Event:    BuildEventStarted,
 		}
 
+		sc.mu.Lock()
 		sc.excerpts = make(map[entity.Id]ExcerptT)
+		sc.mu.Unlock()
 
 		allEntities := sc.actions.ReadAllWithResolver(sc.repo, sc.resolvers())
 
@@ -254,9 +256,14 @@ func (sc *SubCache[EntityT, ExcerptT, CacheT]) Build() <-chan BuildEvent {
 			}
 
 			cached := sc.makeCached(e.Entity, sc.entityUpdated)
-			sc.excerpts[e.Entity.Id()] = sc.makeExcerpt(cached)
+			excerpt := sc.makeExcerpt(cached)
+
+			// the other sub-caches are built concurrently and resolve entities from this one
+			sc.mu.Lock()
+			sc.excerpts[e.Entity.Id()] = excerpt
 			// might as well keep them in memory
 			sc.cached[e.Entity.Id()] = cached
+			sc.mu.Unlock()
 
 			indexData := sc.makeIndexData(cached)
 			if err := indexer(e.Entity.Id().String(), indexData); err != nil {
